@@ -5,6 +5,7 @@
 package seats
 
 import (
+	"errors"
 	"fmt"
 
 	sm "github.com/weedbox/pokerface/seat_manager"
@@ -37,18 +38,19 @@ func errName(err error) string {
 	if err == nil {
 		return ""
 	}
-	switch err {
-	case sm.ErrNotFoundSeat:
+	// errors.Is: an error may be wrapped or carry context
+	switch {
+	case errors.Is(err, sm.ErrNotFoundSeat):
 		return "ErrNotFoundSeat"
-	case sm.ErrNoAvailableSeat:
+	case errors.Is(err, sm.ErrNoAvailableSeat):
 		return "ErrNoAvailableSeat"
-	case sm.ErrNotAvailable:
+	case errors.Is(err, sm.ErrNotAvailable):
 		return "ErrNotAvailable"
-	case sm.ErrInvalidSeat:
+	case errors.Is(err, sm.ErrInvalidSeat):
 		return "ErrInvalidSeat"
-	case sm.ErrInsufficientNumberOfPlayers:
+	case errors.Is(err, sm.ErrInsufficientNumberOfPlayers):
 		return "ErrInsufficientNumberOfPlayers"
-	case sm.ErrEmptySeat:
+	case errors.Is(err, sm.ErrEmptySeat):
 		return "ErrEmptySeat"
 	}
 	return "error:" + err.Error()
@@ -150,6 +152,11 @@ func (m *model) step(op opSpec, r opResult) (bool, string) {
 			return true, ""
 		}
 		if r.Err != "" {
+			// nothing says that an EMPTY seat can be reserved or sat in:
+			// refusing that (without effect) is as good as accepting it
+			if m.occ[op.Seat] == 0 {
+				return true, ""
+			}
 			return false, op.Kind + " refused (" + r.Err + ")"
 		}
 		m.res[op.Seat] = op.Kind == "reserve"
